@@ -11,17 +11,33 @@
           in a round strictly in between                              (C04 L2),
   then two blocks can never both reach more than 2/3 of the precommits — in the same round or
   in different rounds. A commit needs such a quorum in one round (C04 L4), hence agreement.
+  Two forms are proved. `agreement_one_height` is over an untimed history and needs the releasing
+  polka of A3 in a round STRICTLY before the deviating prevote. The implementation (like
+  Tendermint) also unlocks on +2/3 prevotes for something else in the round the node is in, before
+  it has prevoted there; as a fact about a finished history that is circular (the prevotes of a
+  round could release each other) and an untimed A3 with "≤" does not give agreement. What makes
+  the rule sound is causality, so `agreement_one_height_timed` (Lemmas/AgreementT.lean) is over
+  TIMED vote events: the polkas of A2 and A3 consist of prevotes cast strictly earlier, A3's polka
+  is of a round in (r, r'], and the proof is by induction on time. That is the form the node model
+  discharges: the justification is in the node's own vote sets when it signs (C04 L8, L9).
 
-  LAYER 2 (PARTIAL — not mechanised): that every history produced by the node model under any
-  schedule, including crash/restart (C07), satisfies A1–A3. The transition-local facts are
-  theorems (Props/C03, Props/C04); their lift to run-level invariants is the missing piece and is
-  what the c01 "net" engine checks on the real nodes on every run: several real ConsensusStates
+  LAYER 2 (PARTIAL): that every history produced by the node model under any schedule, including
+  crash/restart (C07), satisfies A1–A3. Mechanised for runs of one node from a fresh state
+  (Props/C04 L6, L8, L9 over `stepIn` runs): A2 - every own precommit for a block names the block
+  with +2/3 prevotes in that round; the lock half of A3 - a held lock is backed by a polka in
+  `lockedRound` and (L2) a locked node prevotes the locked block; votes are signed for the current
+  height and round, which never go back. NOT mechanised: the history form of A3 (nothing else is
+  prevoted between a precommit and a later polka - needs the node's past votes as ghost state), A1
+  across restarts as a property of node runs (C03 proves it for the signer), and the composition
+  of several node models into one `History`. That is what the c01 "net" engine checks on the real
+  nodes on every run: several real ConsensusStates
   under a seeded adversarial scheduler (reordering, duplication, loss with retransmission,
   arbitrary timeouts, Byzantine validators below 1/3 that equivocate, crash + WAL restart), each
   honest node compared step by step with its Lean model, with Go-side oracles for agreement and
   for chain linkage.
 -/
 import AnnVerif.Lemmas.Agreement
+import AnnVerif.Lemmas.AgreementT
 namespace AnnVerif.C01
 open AnnVerif.Agreement AnnVerif.Fairness
 
@@ -31,6 +47,14 @@ theorem agreement_one_height {Block : Type} (N : Nat) (w : Nat → Int) (F : Nat
     (rules : HonestRules N w F H) (r r' : Nat) (b b' : Block)
     (hq : CommitQuorum N w H r b) (hq' : CommitQuorum N w H r' b') : b = b' :=
   agreement N w F H hw hF rules r r' b b' hq hq'
+
+/-- C01 (layer 1, timed): agreement when the unlocking polka may be of the prevote's own round but
+    has to be complete before the prevote is cast. -/
+theorem agreement_one_height_timed {Block : Type} (N : Nat) (w : Nat → Int) (F : Nat → Prop)
+    (H : AgreementT.THistory Block) (hw : ∀ j, j < N → 0 ≤ w j) (hF : 3 * pow N w F < S N w)
+    (rules : AgreementT.HonestRules N w F H) (r r' : Nat) (b b' : Block)
+    (hq : AgreementT.CommitQuorum N w H r b) (hq' : AgreementT.CommitQuorum N w H r' b') : b = b' :=
+  AgreementT.agreement N w F H hw hF rules r r' b b' hq hq'
 
 /-- quorum intersection on its own: any two > 2/3 sets share an honest validator -/
 theorem two_quorums_share_an_honest_validator (N : Nat) (w : Nat → Int)
@@ -60,4 +84,40 @@ example : 3 * pow 4 (fun _ => 1) (fun j => j = 3) < S 4 (fun _ => (1 : Int)) := 
 example : CommitQuorum 4 (fun _ => 1) exH 0 7 := by
   simp [CommitQuorum, pow, S, exH]
 
+/-! the same history with times: prevotes at time 0, precommits at time 1 -/
+
+def exT : AgreementT.THistory Nat where
+  prevote j r x s := r = 0 ∧ s = 0 ∧ (x = some 7 ∨ (j = 3 ∧ x = some 8))
+  precommit j r x s := r = 0 ∧ s = 1 ∧ (x = some 7 ∨ (j = 3 ∧ x = some 8))
+
+example : AgreementT.HonestRules 4 (fun _ => 1) (fun j => j = 3) exT := by
+  refine ⟨?_, ?_, ?_, ?_⟩
+  · intro j r x y s s' hf h1 h2
+    simp only [exT] at h1 h2
+    rcases h1.2.2 with h1 | h1 <;> rcases h2.2.2 with h2 | h2
+    · rw [h1, h2]
+    · exact absurd h2.1 hf
+    · exact absurd h1.1 hf
+    · exact absurd h1.1 hf
+  · intro j r x y s s' hf h1 h2
+    simp only [exT] at h1 h2
+    rcases h1.2.2 with h1 | h1 <;> rcases h2.2.2 with h2 | h2
+    · rw [h1, h2]
+    · exact absurd h2.1 hf
+    · exact absurd h1.1 hf
+    · exact absurd h1.1 hf
+  · intro j r b t hf h
+    simp only [exT] at h
+    obtain ⟨hr, ht, hb⟩ := h
+    subst hr; subst ht
+    rcases hb with hb | hb
+    · injection hb with hb; subst hb
+      simp [AgreementT.PolkaBefore, pow, S, exT]
+    · exact absurd hb.1 hf
+  · intro j r b t r' x t' hf h hlt h' _
+    simp only [exT] at h h'
+    omega
+
+example : AgreementT.CommitQuorum 4 (fun _ => 1) exT 0 7 := by
+  simp [AgreementT.CommitQuorum, pow, S, exT]
 end AnnVerif.C01
